@@ -17,6 +17,22 @@ size_t strspn(const char *p, const char *set)
     return k;
 }
 
+#ifdef SAFETY_ONLY
+/* C06 variant: memory safety / termination / frame only, independent of the functional specification */
+int is_ipv4(const char *start, const char *end)
+__CPROVER_requires(RANGE_REQ(start, end, (size_t)0x7ffffff0) && start[g_len] == ']')
+__CPROVER_requires(g_strspn_calls == 0)
+__CPROVER_assigns(g_strspn_calls)
+__CPROVER_ensures(__CPROVER_return_value == 0 || __CPROVER_return_value == 1)
+;
+
+#define EAV_VERIF_LOOP_is_ipv4 \
+    __CPROVER_assigns(cp, ch, in_byte, byte_val, byte_count, g_strspn_calls) \
+    __CPROVER_loop_invariant(IN_OBJ(cp, start, end) && (in_byte == 0 || in_byte == 1) && byte_count >= 0 && (size_t)byte_count <= (size_t)(cp - start) && byte_val >= 0 && byte_val <= 255 \
+        && g_strspn_calls >= 0 && (size_t)g_strspn_calls <= (size_t)(cp - start)) \
+    __CPROVER_decreases(end - cp)
+
+#else
 int is_ipv4(const char *start, const char *end)
 /* call sites: the closing bracket follows the address */
 __CPROVER_requires(RANGE_REQ(start, end, (size_t)0x7ffffff0) && start[g_len] == ']')
@@ -51,13 +67,19 @@ __CPROVER_ensures(__CPROVER_return_value == 0 ==> (q_ph == Q_DEAD || (g_pos == g
       q_ph = Q_NEXT_PH(ph_, cnt_, val_, g_cur); q_cnt = Q_NEXT_CNT(ph_, cnt_, g_cur); q_val = Q_NEXT_VAL(ph_, val_, g_cur); } \
     g_pos++; g_la = BYTE_AT(cp + 1);
 
+#endif
+
 #include <src/is_ipv4_ipv6.c>
 
 void harness(void)
 {
     const char *s, *e;
     int r = is_ipv4(s, e);
+#ifndef SAFETY_ONLY
     __CPROVER_assert(!(r != 0 && g_pos == g_len), "REACH: accept");
     __CPROVER_assert(!(r == 0 && g_pos == g_len && q_cnt == 3), "REACH: reject at the end, three octets");
     __CPROVER_assert(!(r == 0 && q_ph == Q_DEAD && q_cnt == 4), "REACH: reject, fifth octet or overflow");
+#else
+    __CPROVER_assert(r > 0, "REACH: returns");
+#endif
 }
